@@ -1,17 +1,123 @@
-"""C08 — treespec inspection, transform, compose (cmd 2 and cmd 3)."""
+"""C08 — treespec inspection, constructors, transform and compose are consistent.
+Correspondence: cmd 2 (inspect) and cmd 3 (pair: compose, transform, broadcast).
+Oracle: counts sum, rebuild through transform and through every treespec_* constructor, compose
+against an actually composed tree, repr notation."""
 import random
+from collections import OrderedDict, defaultdict, deque
+
 import optree
-from .. import runner
+
+from .. import gen, runner, sx, world
+from ..world import World, realize, attempt
 from . import specops
 
 PROP = 'C08'
 
 
+def rebuild_with_constructor(sp, children, kw):
+    k = int(sp.kind)
+    nl, ns = kw['none_is_leaf'], kw['namespace']
+    ckw = dict(none_is_leaf=nl, namespace=ns)
+    if k == 3:
+        return optree.treespec_tuple(children, **ckw)
+    if k == 4:
+        return optree.treespec_list(children, **ckw)
+    if k == 5:
+        return optree.treespec_dict(dict(zip(sp.entries(), children)), **ckw)
+    if k == 7:
+        return optree.treespec_ordereddict(OrderedDict(zip(sp.entries(), children)), **ckw)
+    if k == 8:
+        factory = sp.__getstate__()[0][-1][2][0]
+        return optree.treespec_defaultdict(factory, dict(zip(sp.entries(), children)), **ckw)
+    if k == 9:
+        maxlen = sp.__getstate__()[0][-1][2]
+        return optree.treespec_deque(children, maxlen=maxlen, **ckw)
+    if k == 6:
+        return optree.treespec_namedtuple(sp.type(*children), **ckw)
+    if k == 10:
+        return optree.treespec_structseq(sp.type(children), **ckw)
+    if k == 2:
+        return optree.treespec_none(**ckw)
+    return None
+
+
+def oracle_inspect(res, cfg, o, rng):
+    case = (2, cfg, o)
+    with World(cfg) as w:
+        tree = realize(o, rng, {})
+        kw = w.kw()
+        f = attempt(lambda: optree.tree_flatten(tree, **kw))
+        if f[0] != 0:
+            return
+        ls, sp = f[1]
+        res.evaluations += 1
+        ch = sp.children()
+        if not sp.is_leaf():
+            if sum(c.num_leaves for c in ch) != sp.num_leaves or sum(c.num_nodes for c in ch) + 1 != sp.num_nodes:
+                res.fail('children counts do not sum to the parent', case)
+            if len(ch) != sp.num_children or len(sp.entries()) != sp.num_children:
+                res.fail('number of children/entries differs from num_children', case)
+            it = iter(ch)
+            rb = sp.one_level().transform(None, lambda _leaf: next(it))
+            if rb != sp or rb.paths() != sp.paths() or rb.__getstate__()[0] != sp.__getstate__()[0]:
+                res.fail('one_level + children through transform does not give the treespec back', case, f'{sp} vs {rb}')
+            if int(sp.kind) != 0:
+                # dict-like constructors sort the keys unless the insertion-ordered mode is on: compare as ==
+                rc = attempt(lambda: rebuild_with_constructor(sp, ch, kw))
+                if rc[0] != 0:
+                    res.fail('treespec constructor raised on the real children', case, rc)
+                elif rc[1] is not None and (rc[1] != sp or rc[1].paths() != sp.paths()):
+                    res.fail('treespec constructor applied to the children gives a different treespec', case, f'{sp} vs {rc[1]}')
+        if len(sp) != sp.num_leaves:
+            res.fail('len(treespec) differs from num_leaves', case)
+        if sp.transform() != sp or sp.transform(lambda s: s, lambda s: s) != sp:
+            res.fail('transform with identity functions is not the identity', case)
+        s = str(sp)
+        if ('NoneIsLeaf' in s) != bool(cfg[0]):
+            res.fail('repr NoneIsLeaf suffix wrong', case, s)
+        if ('namespace=' in s) != (sp.namespace != ''):
+            res.fail('repr namespace suffix wrong', case, s)
+        if s.count('*') != sp.num_leaves and cfg[2] == 0:
+            res.fail('repr does not show one * per leaf', case, s)
+
+
+def oracle_pair(res, case, t1, t2, s1, s2, kw1, kw2, out):
+    res.evaluations += 1
+    c = out[11]
+    if c[0] == 0:
+        comp = s1.compose(s2)
+        if comp.num_leaves != s1.num_leaves * s2.num_leaves:
+            res.fail('compose: num_leaves do not multiply', case)
+        if comp.num_nodes != (s1.num_nodes - s1.num_leaves) + s1.num_leaves * s2.num_nodes:
+            res.fail('compose: num_nodes formula violated', case)
+        # structure of an s1-shaped tree whose every leaf is an s2-shaped tree
+        inner = s2.unflatten([world.Opaque(70000 + i) for i in range(s2.num_leaves)])
+        big = s1.unflatten([inner] * s1.num_leaves)
+        kw = dict(kw1)
+        kw.pop('is_leaf', None)
+        # flatten under the merged namespace
+        kw['namespace'] = comp.namespace
+        got = attempt(lambda: optree.tree_structure(big, **kw))
+        if got[0] == 0 and got[1] != comp and not case[1][4] and kw1.get('is_leaf') is None and kw2.get('is_leaf') is None \
+                and s1.namespace in ('', comp.namespace) and s2.namespace in ('', comp.namespace):
+            res.fail('compose differs from the structure of the composed tree', case, f'{comp} vs {got[1]}')
+        tr = out[12]
+        if tr[0] == 0 and s1.num_leaves > 0:
+            if s1.transform(None, lambda _l: s2) != comp:
+                res.fail('transform replacing every leaf by s differs from compose(s)', case)
+
+
 def run(res, tier, seed):
     rng = random.Random(seed * 1000003 + 8)
     limit = optree.MAX_RECURSION_DEPTH
-    specops.run_inspect(res, rng, 1200 if tier == 'quick' else 20000, limit)
-    specops.run_pairs(res, rng, 1200 if tier == 'quick' else 20000, limit)
+    n = 1200 if tier == 'quick' else 20000
+    specops.run_inspect(res, rng, n, limit)
+    specops.run_pairs(res, rng, n, limit, hook=oracle_pair)
+    for i in range(n):
+        cfg = gen.gen_cfg(rng, limit)
+        g = gen.TreeGen(rng, world.STRUCTSEQ_ARITY, max_nodes=rng.choice([6, 15, 40]),
+                        max_depth=rng.choice([3, 6, 10]), max_arity=rng.choice([2, 4, 7]))
+        oracle_inspect(res, cfg, g.tree(), random.Random(rng.getrandbits(48)))
 
 
 if __name__ == '__main__':
